@@ -179,7 +179,8 @@ fn gen_string(rng: &mut Rng) -> String {
         "=", "=", ",", ",", "/", " ", " ", "  ", "\t", "3", "12", "é", "{", "}", "x_y", "::", "foo",
         "[", "(", ")", "|", "^", "$", ".", "*", "=info", "=debug", ", ", " = ",
     ];
-    let n = rng.range(0, 12);
+    // mostly short; now and then long (hundreds of parts: long error texts, many entries)
+    let n = if rng.chance(1, 10) { rng.range(40, 400) } else { rng.range(0, 12) };
     let mut s = String::new();
     for _ in 0..n {
         s.push_str(*rng.pick(&atoms));
@@ -188,7 +189,7 @@ fn gen_string(rng: &mut Rng) -> String {
 }
 
 fn gen_unicode(rng: &mut Rng) -> String {
-    let n = rng.range(0, 20);
+    let n = if rng.chance(1, 10) { rng.range(60, 600) } else { rng.range(0, 20) };
     let mut s = String::new();
     for _ in 0..n {
         let c = match rng.below(6) {
